@@ -53,11 +53,13 @@ def _read(path, binary=False):
 
 def parse_dump(text):
     """{(normalised file, fn): [(opcode, [args])]}; the last definition wins (as the loader does)."""
-    fns, cur = {}, None
+    fns, cur, omap = {}, None, {}
     for line in text.split("\n"):
         if not line:
             continue
-        if line[0] == "F":
+        if line[0] == "O":
+            tracecheck.o_record(line, omap)
+        elif line[0] == "F":
             strs = tracecheck._STR.findall(line)
             if len(strs) < 2:
                 cur = None
@@ -70,6 +72,7 @@ def parse_dump(text):
                 opcode = int(parts[1])
             except (IndexError, ValueError):
                 continue
+            opcode = omap.get(opcode, opcode)
             args = [tracecheck._unq(a) for a in tracecheck._STR.findall(parts[2])] if len(parts) > 2 else []
             cur.append((opcode, args))
     return fns
@@ -249,7 +252,7 @@ def compare_dumps(da, db):
                 def show(x):
                     if x is None:
                         return "<no instruction>"
-                    return "%s [%s]" % (tracecheck.OPNAMES[x[0]] if 0 <= x[0] < len(tracecheck.OPNAMES) else x[0],
+                    return "%s [%s]" % (tracecheck.opname(x[0]),
                                         ", ".join(_short(y) for y in x[1]))
                 return "%s#%s instruction %d: run has %s, pipeline B has %s" % (k[0], k[1], i, show(ia), show(ib))
     return None
@@ -738,10 +741,9 @@ _CONST = re.compile(r"^\s+([A-Z][A-Z0-9_]*)\s+(\d+)\s*$", re.M)
 
 
 def opcode_table():
-    """[(index, lower-cased name)] read from bytecode/src/instruction_constants.rs (generate_consts! block)."""
-    text = open(os.path.join(core.REPO, "bytecode/src/instruction_constants.rs"), encoding="utf-8").read()
-    body = text.split("generate_consts! {", 1)[1]
-    return [(int(n), name.lower()) for name, n in _CONST.findall(body)]
+    """[(opcode byte, name)] — the table of the binary under test itself (the `O` records of its hook output): the
+    byte the LOADER maps to each instruction name is the byte the transpiler has to write for that name."""
+    return sorted((b, n) for n, b in tracecheck.real_table().items())
 
 
 ARG_FORMS = [("none", [], ""), ("quoted", ["x1", "y2"], ' "x1" "y2"'), ("bare", ["x1", "2"], " x1 2"),
@@ -963,12 +965,11 @@ def collect_strings(prop, ctx, out, n_sample4=400, batch=200):
 
 def collect_opcodes(prop, out):
     table = opcode_table()
-    if [n for _, n in table] != tracecheck.OPNAMES or [i for i, _ in table] != list(range(len(table))):
-        out.inconclusive.append("opcode table read from instruction_constants.rs is not 0..n / differs from tracecheck.OPNAMES")
     items = [(i, n, form, args, text) for i, n in table for form, args, text in ARG_FORMS]
     n_table = len(items)
-    bp = tracecheck.OP["breakpoint"]
-    items += [(bp, "breakpoint", "list:" + form, args, text) for form, args, text in ARG_LIST_FORMS]
+    carrier = "breakpoint" if "breakpoint" in tracecheck.real_table() else table[-1][1]
+    bp = tracecheck.real_table()[carrier]
+    items += [(bp, carrier, "list:" + form, args, text) for form, args, text in ARG_LIST_FORMS]
     results = core.pmap(work_opcode, items, chunksize=4)
     refused, checked = set(), 0
     for (status, res), item in zip(results, items):
@@ -993,7 +994,8 @@ def collect_opcodes(prop, out):
                 {"text_file": "function __module__\n\t%s%s\nend\n" % (item[1], item[4]), "opcode_item": list(item),
                  "expected_byte": item[0], "expected_args": item[3], "binary": res.get("binary"),
                  "problem": res["problem"], "detail": res["detail"]}))
-    return {"opcode_names_in_table": len(table), "opcode_cases_checked(name x argument form)": checked,
+    return {"opcode_names_in_table": len(table), "opcode_names_unknown_to_the_harness": sorted(set(n for _, n in table) - set(tracecheck.OPNAMES)),
+            "opcode_cases_checked(name x argument form)": checked,
             "argument_list_forms_checked": [f for f, _, _ in ARG_LIST_FORMS],
             "opcode_names_refused_as_deprecated": sorted(refused), "opcode_table_enumerated_completely": True}
 
